@@ -166,6 +166,11 @@ func checkConservation(s *gen.Stream, f []byte, add func(clause, known, msg stri
 		if t := d.LastLine + 1; (!d.Race || d.NoFooter) && t < n && s.Lines[t].Blank && s.Lines[t].Class == gen.Junk {
 			plain[t] = true
 		}
+		// a report generated without footer that happens to be followed by an
+		// exact separator line is simply a complete report
+		if t := d.LastLine + 1; d.NoFooter && t < n && s.Lines[t].Class == gen.Junk && string(bytes.TrimRight(s.Text(t), "\r\n")) == "==================" {
+			plain[t] = true
+		}
 	}
 	for i := range kf1Tail(s) {
 		kf1[i] = true
